@@ -192,6 +192,70 @@ theorem replication_block (rank : Nat → Nat) (cc : List Val) (hwf : CCWF cc)
     exact chain_effect sets s0 hnd (lookup cc) hcc k
   exact ⟨key, fun k => by rw [applyCC_engine cc hwf]; exact key k⟩
 
+
+/-! ### any delivery schedule -/
+
+/-- the last element of a non-empty history -/
+def lastSet (s0 : List Val) (sets : List (List Val)) : List Val := sets.getLastD s0
+
+theorem lastSet_eq (s0 : List Val) (sets : List (List Val)) : lastSet s0 sets = (s0 :: sets).getLast (by simp) :=
+  (List.getLast_eq_getLastD _).symm
+
+/-- a delivery schedule: consumer blocks, each receiving (in order) the packets that lead through the
+    provider sets listed for it — none, one or many.  Returns the consumer's stored set and the
+    provider set it should have reached. -/
+def runBlocks (rank : Nat → Nat) : List Val → List Val → List (List (List Val)) → List Val × List Val
+  | cc, prev, [] => (cc, prev)
+  | cc, prev, b :: bs =>
+    runBlocks rank (applyCC cc (pendingAfter rank (packetsOf (prev :: b)))).1 (lastSet prev b) bs
+
+theorem lastSet_mem (s0 : List Val) (sets : List (List Val)) : lastSet s0 sets ∈ s0 :: sets :=
+  List.getLastD_mem_cons
+
+theorem getLastD_append (a : List Val) (l m : List (List Val)) : (l ++ m).getLastD a = m.getLastD (l.getLastD a) := by
+  induction l generalizing a with
+  | nil => rfl
+  | cons x xs ih => simp only [List.cons_append, List.getLastD_cons, ih]
+
+/-- **Replication under any schedule.**  However the ordered packet stream is cut into consumer
+    blocks (empty blocks, one packet, many packets per block, arbitrarily long delays), after every
+    block the consumer's stored validator set is exactly the provider set of the last packet
+    delivered so far. -/
+theorem replication_schedule (rank : Nat → Nat) (blocks : List (List (List Val)))
+    (cc s0 : List Val) (hwf : CCWF cc) (hcc : ∀ k, lookup cc k = lookup s0 k)
+    (hnd0 : (s0.map (·.key)).Nodup) (hnd : ∀ b ∈ blocks, ∀ s ∈ b, (s.map (·.key)).Nodup) :
+    CCWF (runBlocks rank cc s0 blocks).1 ∧
+    ∀ k, lookup (runBlocks rank cc s0 blocks).1 k = lookup (runBlocks rank cc s0 blocks).2 k := by
+  induction blocks generalizing cc s0 with
+  | nil => exact ⟨hwf, hcc⟩
+  | cons b bs ih =>
+    simp only [runBlocks]
+    have hb : ∀ s ∈ s0 :: b, (s.map (·.key)).Nodup := by
+      intro s hs
+      rcases List.mem_cons.mp hs with rfl | h
+      · exact hnd0
+      · exact hnd b List.mem_cons_self s h
+    have hr := (replication_block rank cc hwf s0 b hb hcc).1
+    apply ih
+    · exact applyCC_wf cc hwf _
+    · intro k; rw [lastSet_eq]; exact hr k
+    · exact hb _ (lastSet_mem s0 b)
+    · intro b' hb' s hs; exact hnd b' (List.mem_cons_of_mem _ hb') s hs
+
+/-- the set the schedule should reach is the last provider set that was delivered -/
+theorem runBlocks_target (rank : Nat → Nat) (blocks : List (List (List Val))) (cc s0 : List Val) :
+    (runBlocks rank cc s0 blocks).2 = lastSet s0 blocks.flatten := by
+  induction blocks generalizing cc s0 with
+  | nil => rfl
+  | cons b bs ih =>
+    simp only [runBlocks, List.flatten_cons]
+    rw [ih]
+    unfold lastSet
+    rw [getLastD_append]
+
+example : runBlocks id [⟨1, 5⟩] [⟨1, 5⟩] [[], [[⟨1, 5⟩, ⟨2, 3⟩], [⟨2, 4⟩]], [], [[⟨2, 4⟩, ⟨3, 1⟩]]]
+    = ([⟨2, 4⟩, ⟨3, 1⟩], [⟨2, 4⟩, ⟨3, 1⟩]) := by decide
+
 /-! ### non-vacuity -/
 
 example : diff [⟨1, 5⟩, ⟨2, 7⟩, ⟨3, 1⟩] [⟨2, 9⟩, ⟨3, 1⟩, ⟨4, 2⟩] = [⟨1, 0⟩, ⟨2, 9⟩, ⟨4, 2⟩] := by decide
